@@ -28,11 +28,22 @@ pub fn cfg() -> Cfg {
         MatcherKind::FuncDebug,
         MatcherKind::FuncDebug,
         MatcherKind::Func,
+        MatcherKind::Macro(0),
     ];
     cfg.max_clauses = 6;
     cfg.max_stub_pats = 6;
     cfg.max_history = 24;
     cfg.prefer_match = 248;
+    cfg
+}
+
+/// Long clause lists (up to 16 separate clauses over few methods): the mock is built from a real
+/// tuple of that arity, and patterns of one method are spread over distant clauses.
+pub fn cfg_wide() -> Cfg {
+    let mut cfg = cfg();
+    cfg.methods = vec![0, 1, 2];
+    cfg.max_clauses = 16;
+    cfg.max_stub_pats = 2;
     cfg
 }
 
@@ -124,13 +135,13 @@ pub fn check(scn: &Scenario) -> Result<CaseInfo, String> {
     }
 }
 
-pub const RULE: &str = "scenarios = generated unordered clause lists (1-6 patterns per method, arbitrary 8-bit accept masks over args 0..8, some_call/each_call/stub forms, patterns of one method split over several clauses) x histories of up to 24 calls routed through the original or clones, strict and partial; non-trivial = some call is accepted by >= 2 patterns of its method and an earlier call to the same method already matched; distinct = distinct scenario (hash of the whole case)";
+pub const RULE: &str = "scenarios = generated unordered clause lists (1-6 patterns per method, arbitrary 8-bit accept masks over args 0..8, some_call/each_call/stub forms, patterns of one method split over several clauses) x histories of up to 24 calls routed through the original or clones, strict and partial; wide-clause-lists = the same with up to 16 separate clauses over 3 methods (every mock is built from a REAL tuple of the list's arity); non-trivial = some call is accepted by >= 2 patterns of its method and an earlier call to the same method already matched; distinct = distinct scenario (hash of the whole case)";
 
 pub fn run(ctx: &Ctx) -> Verdict {
     let mut v = Verdict::new("exploration", RULE);
     v.explanation = "Model-vs-implementation comparison of every call outcome (returned tag identifies the answering pattern), side effects, and the verification message (which patterns were counted).".into();
     v.assumptions = vec![
-        "clauses are assembled through the DynClause hook (run-time sized tuple); every terminal clause and the runtime are production code".into(),
+        "each clause is wrapped in the DynClause hook (its builder type is only known at run time); the list itself is a production tuple of that arity; every terminal clause and the runtime are production code".into(),
         "build variant: std".into(),
     ];
     v.subs.push(super::replay_corpus(ctx));
@@ -140,6 +151,14 @@ pub fn run(ctx: &Ctx) -> Verdict {
         .prop_map(|(s, d)| counted(s, d));
     v.subs
         .push(vcore::run_proptest(ctx, "counted", n, counted_strategy, check));
+    let wide = (gen::scenario(cfg_wide()), proptest::collection::vec(any::<u8>(), 40), any::<bool>())
+        .prop_map(|(s, d, c)| if c { counted(s, d) } else { s });
+    v.subs.push(vcore::run_proptest(ctx, "wide-clause-lists", n / 3, wide, |scn| {
+        check(scn).map(|i| {
+            let n = scn.clauses.len();
+            i.class_if(n >= 9, "clause-tuple-arity>=9").class_if(n >= 13, "clause-tuple-arity>=13")
+        })
+    }));
     if ctx.tier == vcore::Tier::Thorough {
         v.subs.push(super::fuzz_campaign(ctx, 1_500_000));
     }
